@@ -32,6 +32,7 @@ type Style struct {
 	QuoteNames    bool   // rule names in quotes
 	TrailingComma bool   // trailing comma inside the rule object
 	Comments      int    // 0 none, 1 '#' line comments on own lines, 2 also '###' blocks, 3 end-of-line '#' comments as well
+	EmptyAnn      int    // >0: every EmptyAnn-th value without rules and note gets an empty "//" annotation
 	BlankLines    bool   // blank lines between properties
 	SpaceBeforeColon bool
 	RuleOrder     func(n int) []int // permutation of rule indexes (nil = as written)
@@ -45,6 +46,8 @@ type printer struct {
 	b  []byte
 	st *Style
 	cc int // comment counter
+	ea int // empty-annotation counter
+	inMulti bool // inside a /* */ annotation
 }
 
 // PrintSchema renders n and fills Begin/End/AnnBegin/KeyBegin/KeyEnd and rule offsets.
@@ -102,11 +105,20 @@ func (p *printer) eolComment() {
 func (p *printer) annotation(n *ref.SNode, level int) {
 	n.AnnBegin = -1
 	if len(n.Rules) == 0 && n.Note == "" {
+		if p.st.EmptyAnn > 0 && !p.st.MultiLine {
+			// an annotation without rules and without a note: "//" up to the end of the line
+			p.ea++
+			if p.ea%p.st.EmptyAnn == 0 {
+				p.w([]string{" //", " // ", " //\t", "  //  "}[(p.ea/p.st.EmptyAnn)%4])
+			}
+		}
 		return
 	}
 	p.w(" ")
 	n.AnnBegin = len(p.b)
 	multi := p.st.MultiLine
+	p.inMulti = multi
+	defer func() { p.inMulti = false }()
 	if multi {
 		p.w("/*")
 	} else {
@@ -173,6 +185,29 @@ func (p *printer) ruleValue(r *ref.SRule, spread bool, level int) {
 	case ref.RVEnumRef:
 		p.w(r.EnumRef)
 	case ref.RVEnum:
+		noted := false
+		for _, it := range r.Enum {
+			noted = noted || it.Comment != ""
+		}
+		if noted && p.inMulti {
+			// one item per line, each with its own inline note (only possible inside /* */)
+			p.w("[")
+			for i, it := range r.Enum {
+				p.w(p.st.NL)
+				p.indent(level + 3)
+				p.w(it.Tok)
+				if i < len(r.Enum)-1 {
+					p.w(",")
+				}
+				if it.Comment != "" {
+					p.w(" // " + it.Comment)
+				}
+			}
+			p.w(p.st.NL)
+			p.indent(level + 2)
+			p.w("]")
+			return
+		}
 		p.w("[")
 		for i, it := range r.Enum {
 			if i > 0 {
